@@ -3,3 +3,5 @@
 package cache
 
 func verifPersistStage(key string, stage int) {}
+
+func verifGetStage(key string, stage int) {}
